@@ -42,8 +42,8 @@ EXTENDS Naturals, Integers, Sequences, FiniteSets
 F50_OPEN == TRUE     \* user-placed PIT layers are adopted by reference and fused / folded in place
 F51_OPEN == TRUE     \* fusion once per call site; re-created BatchNorm after one call site only
 F52_OPEN == TRUE     \* nn.Linear on a 3-D tensor: masks are sized after dimension 1, forward / export raise
-F53_OPEN == TRUE     \* BatchNorm(affine=False): PITBatchNorm copies weight / bias unconditionally, PIT(...) raises
-Dev(impl, open) == impl # "ref" /\ open
+F53_OPEN == FALSE    \* BatchNorm(affine=False): PITBatchNorm copies weight / bias unconditionally, PIT(...) raises
+Dev(impl, open) == impl = "pinned" \/ (impl # "ref" /\ open)      \* "pinned": every deviation of the pinned commit, repaired or not
 
 (* ------------------------------ accessors ------------------------------- *)
 N(a)        == Len(a.nodes)
